@@ -17,7 +17,7 @@ from vp import env, evlog, ref_wf
 LEVEL = "exploration"
 
 
-def gen_spec(rng, nmax=5, p_conn=0.45, p_split=0.5, p_comb=0.3, ext=False):
+def gen_spec(rng, nmax=5, p_conn=0.45, p_split=0.5, p_comb=0.3, ext=False, p_empty=0.0):
     """ext=True adds list-producing nodes split downstream, nested sub-workflows, combiners over
     upstream axes and workflow inputs (x, y)"""
     n = rng.randint(2, nmax)
@@ -73,6 +73,8 @@ def gen_spec(rng, nmax=5, p_conn=0.45, p_split=0.5, p_comb=0.3, ext=False):
                 form = {"i": fs}
                 m = rng.randint(1, 3)
                 lens = {f: m for f in fs}
+            if rng.random() < p_empty:
+                lens = {f: 0 for f in fs}       # a split over empty lists: the node runs no job at all
             for f in fs:
                 vals[f] = ["lit", [f"{name.lower()}{f}{j}" for j in range(lens[f])]]
             if ext and lnodes and not isinstance(form, dict) or (ext and lnodes and isinstance(form, dict) and "o" in form):
@@ -297,7 +299,7 @@ def run(ctx):
     rng = ctx.rng("gen")
     cases = []
     for i in range(100 if quick else 3000):
-        cases.append({"spec": gen_spec(rng, nmax=rng.choice([3, 4, 5])), "worker": "cf" if i % 15 == 0 else "debug"})
+        cases.append({"spec": gen_spec(rng, nmax=rng.choice([3, 4, 5]), p_empty=0.1), "worker": "cf" if i % 15 == 0 else "debug"})
     for i in range(40 if quick else 1500):
         cases.append({"spec": gen_fanin(rng), "worker": "debug"})
     for i in range(60 if quick else 2500):
